@@ -371,7 +371,47 @@ def lex_universe() -> Tuple[List[Tree], Tuple[str, ...]]:
         for a, b in forms:
             pair = [("raw", a), ("raw", b)]
             trees += pair if i % 2 == 0 else pair[::-1]
-    return trees, LEX_NAMES + tuple(fused)
+    for j, (x, y) in enumerate(itertools.product(LEX_NAMES, repeat=2)):
+        for kw in ("or", "and"):
+            src = "%s %s %s" % (x, kw, y)
+            f = "".join(src.split())
+            fused.append(f)
+            for a, b in [(src, f), (src + " + 1", f + " + 1"), ("abs(%s)" % src, "abs(%s)" % f)]:
+                pair = [("raw", a), ("raw", b)]
+                trees += pair if j % 2 == 0 else pair[::-1]
+    return trees, LEX_NAMES + tuple(dict.fromkeys(fused))
+
+
+def _conformance_named(trees: List[Tree], names: Tuple[str, ...]) -> Tuple[int, List[str]]:
+    """Encoding vs. the real ExpressionEvaluator for texts over an arbitrary name set (LEX universe)."""
+    import z3
+    from semantiva.utils.safe_eval import ExpressionEvaluator
+    from vt.z3enc.expr import _to_int, encode_text
+
+    ev = ExpressionEvaluator()
+    grid = [(-3, 2, 5), (0, -1, 1), (4, 0, -2), (0, 0, 0), (7, -5, 3)]
+    n = 0
+    bad: List[str] = []
+    for t in trees:
+        tx = text(t)
+        try:
+            fn = ev.compile(tx, set(names))
+        except Exception as e:  # noqa: BLE001
+            bad.append("real compile rejected %s: %r" % (tx, e))
+            continue
+        e, _side, env = encode_text(tx, names)
+        for g in grid:
+            vals = {nm: (g[i] if i < 3 else 11 + i) for i, nm in enumerate(names)}
+            try:
+                real = fn(**vals)
+            except ZeroDivisionError:
+                continue
+            val = z3.simplify(z3.substitute(_to_int(e), *[(env[k], z3.IntVal(v)) for k, v in vals.items()]))
+            if not z3.is_int_value(val) or val.as_long() != int(real):
+                bad.append("%s at %r: real=%r enc=%s" % (tx, g, real, val))
+            else:
+                n += 1
+    return n, bad
 
 
 def _make(param):
@@ -412,6 +452,12 @@ def _make(param):
             _check_classes(trees, shard, nshards, res, "CMP", deadline)
         elif what == "LEX":
             trees, names = lex_universe()
+            n_ok, bad = _conformance_named(trees[shard::nshards], names)
+            res["conformance_evaluations"] += n_ok
+            if bad:
+                res["status"] = "harness_error"
+                res["detail"] = "encoding disagrees with the real evaluator: " + "; ".join(bad[:3])
+                return res
             _check_classes(trees, shard, nshards, res, "LEX", deadline, names=names)
         elif what == "BIGC":
             # constants around the places where a numeric representation could change (2**31, 2**53, 2**63, 2**64, 10**16):
@@ -495,7 +541,7 @@ def obligations(tier: str) -> List[Ob]:
                 bound={"U": "all expressions with <= %d AST nodes over leaves {a,b,c,0,1,2,3}, unary -/abs, binary + - * // %% < == min max, **2/**3, if-else; O1 per signature class, O2 all single AC moves, O3 all single-point mutations (<=4 nodes)" % arg,
                        "NEST": "every %s of atoms (7 leaves + all 3-node + * - // expressions over {a,b,2} + -a + abs(b)) joined by + or *: O1 + O2" % ("pair" if arg == 2 else "triple (both bracketings, reduced atom pool)"),
                        "CMP": "all comparisons x op y and chains x op1 y op2 z over {a, b, c, 1} and < <= > >= == != (2400 expressions): O1 per signature class",
-                       "LEX": "270 texts over names {p, q, r}: every X if Y else Z (bare, + 1, 1 + (..), abs(..), negated) next to the identifier its text spells without blanks (pifqelser), both orders of first use in one process: O1 per signature class",
+                       "LEX": "378 texts over names {p, q, r}: every X if Y else Z (bare, + 1, 1 + (..), abs(..), negated) and every X or Y / X and Y (bare, + 1, abs(..)) next to the identifier its text spells without blanks (pifqelser, porq), both orders of first use in one process: O1 per signature class; encoding validated against the real evaluator on these texts",
                        "BIGC": "all expressions with <= 3 AST nodes over {a, b} and 11 integer constants around 2**31, 2**53, 2**63, 2**64, 10**16: O1 per signature class",
                        "RAND": "%d VERIF_SEED-seeded expressions of 6..11 nodes: O2 moves + up to 12 mutations each (a draw, not a bound)" % arg}[what],
                 targets=["semantiva/metadata/semantic_id.py:normalize_expression_sig_v1", "semantiva/metadata/semantic_id.py:_dump_ast_commutative"],
